@@ -220,29 +220,40 @@ def fmt(vec) -> str:
     return " and ".join(parts) or "unconditional"
 
 
+TABLE_TITLES = {
+    "R06a": "both strategies give the documented result for present / absent fields and dependencies, and agree with each other",
+    "R06b": "two different values for one field are an alias conflict in both strategies (equal values are not)",
+    "R06d": "a provided value that fails to convert is reported once, never as absent, in both strategies",
+    "R06f": "a field that takes no input from the given value is filled by its default (and absent without one) in both strategies",
+    "R06i": "unknown keys are kept / rejected / dropped by the addition policy alone, in both strategies",
+    "R06j": "which of several spellings of one field wins does not depend on the strategy",
+    "R06k": "a key naming an excluded (positionally supplied) field has the same fate in both strategies",
+    "R05c": "a missing field raises AbsenceError exactly when it is required, and takes its default otherwise",
+}
+
+
+def emit_table(run, rule: str, A: FuncInfo = None, B: FuncInfo = None, report_as: str = None):
+    """the clauses of `rule` decided on the decision table of the two lookup strategies (strategy_table.py)"""
+    from . import strategy_table as stt
+    if A is None or B is None:
+        _pd, A, B = siblings(run)
+    rows, bad = stt.table(run, run.tier, A, B)
+    mine = {c: v for c, v in bad.items() if stt.rule_of(c)[0] == rule}
+    title = TABLE_TITLES[rule]
+    rule = report_as or rule
+    run.floor(rule, "rows of the lookup-strategy decision table", rows, 3000)
+    if not mine:
+        run.check(rule, A, title + " (decision table)", True, construct=f"{rule} table")
+        return
+    for clause, (desc, got, want) in sorted(mine.items()):
+        _r, construct, nec = stt.rule_of(clause)
+        who = B if clause.startswith("ff:") else A
+        run.check(rule, who, title + f" [{clause}]", False, construct=construct,
+                  message=f"{who.qualname}: for [{desc}] the outcome is {got}; expected {want}", necessity=nec)
+
+
 def r06a(run, A: FuncInfo, B: FuncInfo):
-    aa, bb = collect_actions(run, A), collect_actions(run, B)
-    names = sorted({x.name for x in aa} | {x.name for x in bb})
-    run.floor("R06a", "actions in the two lookup strategies", len(aa) + len(bb), 14)
-    for nm in names:
-        va = sorted({x.vector() for x in aa if x.name == nm})
-        vb = sorted({x.vector() for x in bb if x.name == nm})
-        if not va or not vb:
-            miss = B if not vb else A
-            have = A if not vb else B
-            run.check("R06a", miss, f"action `{nm}` exists in both strategies", False,
-                      construct=f"action {nm} missing in {miss.name}",
-                      message=f"{have.name} performs `{nm}` but {miss.name} never does",
-                      necessity="an input that triggers the action gives a different result / error kind per strategy")
-            continue
-        same = va == vb
-        run.check("R06a", B, f"action `{nm}`: guard vectors agree ({fmt(va[0])[:80]})", same,
-                  construct=f"guard vectors differ for {nm}",
-                  message=f"`{nm}` is performed under different conditions: {A.name}: "
-                          + " | ".join(fmt(v) for v in va) + f"  vs  {B.name}: " + " | ".join(fmt(v) for v in vb),
-                  necessity="there is an option value / field predicate value under which one strategy performs the "
-                            "action and the other does not, so the two strategies return different results",
-                  node=[x for x in bb if x.name == nm][0].stmt)
+    emit_table(run, "R06a", A, B)
 
 
 def container_state(fa: FuncAnalysis, var: str) -> Set[str]:
@@ -284,47 +295,7 @@ def value_state(fa: FuncAnalysis, n: Node, e, depth=0) -> Set[str]:
 
 
 def r06b(run, funcs):
-    total = 0
-    for f in funcs:
-        fa = analysis(f)
-        for n in fa.cfg.nodes:
-            if n.kind != "stmt":
-                continue
-            if not any(is_handle_error_call(c) and c.args and exc_class_of_ctor(c.args[0]) == "AliasConflictError"
-                       for c in fa.calls_at(n)):
-                continue
-            # the comparison either guards the report directly, or guards the assignment of a variable the report
-            # is made from (deferred report: `conflict = data[alias]` ... `handle_error(AliasConflictError(value=conflict))`)
-            branches = list(fa.facts.branch_facts(n))
-            used = set()
-            for c in fa.calls_at(n):
-                used |= names_in(c)
-            for b0 in list(branches):
-                used |= names_in(b0.test)
-            for v in used:
-                for d in fa.rd.defs_of(n, v):
-                    if d is not fa.cfg.entry and d.kind == "stmt" and isinstance(d.ast, ast.Assign):
-                        branches += fa.facts.branch_facts(d)
-            seen_tests = set()
-            for b in branches:
-                t = b.test
-                if id(t) in seen_tests:
-                    continue
-                seen_tests.add(id(t))
-                if isinstance(t, ast.Compare) and len(t.ops) == 1 and isinstance(t.ops[0], (ast.NotEq, ast.Eq)) \
-                        and not isinstance(t.comparators[0], ast.Constant) and opt_attr(t.left) is None:
-                    total += 1
-                    tn = b.pred[0][0]
-                    ls = value_state(fa, tn, t.left)
-                    rs = value_state(fa, tn, t.comparators[0])
-                    ok = ls == {"RAW"} and rs == {"RAW"}
-                    run.check("R06b", f, f"alias conflict test `{unparse(t)}` compares two raw inputs", ok,
-                              construct="alias conflict compares parsed with raw",
-                              message=f"`{unparse(t)}` decides an alias conflict between `{unparse(t.left)}` "
-                                      f"({'/'.join(sorted(ls))}) and `{unparse(t.comparators[0])}` ({'/'.join(sorted(rs))})",
-                              necessity="a1='3', a2='3' conflict when the first is compared after conversion (3 != '3') "
-                                        "but not when both are compared raw: the strategies disagree", node=t)
-    run.floor("R06b", "alias-conflict comparisons", total, 2)
+    emit_table(run, "R06b", funcs[0], funcs[1])
 
 
 def r06c(run, pd: FuncInfo, A: FuncInfo, B: FuncInfo):
@@ -371,8 +342,9 @@ def r06d(run, A: FuncInfo, B: FuncInfo):
     """consumed-input bookkeeping: (i) the key filter of the extra-key pass covers *every* alias of a consumed field;
     (ii) the record of consumed inputs is updated whenever parse_value is called, independent of its outcome;
     (iii) absence is decided on inputs, not on parse results"""
+    emit_table(run, "R06d", A, B)          # the two lookup strategies: decided on their decision table
     pp = run.repo.func("utype.parser.func", "FunctionParser.parse_params")
-    for f in (A, B, pp):
+    for f in (pp,):
         fa = analysis(f)
         pv = [(n, c) for n, c in fa.all_calls() if call_attr(c) == "parse_value"]
         # sets/dicts tested by membership to skip keys / fields
@@ -399,8 +371,7 @@ def r06d(run, A: FuncInfo, B: FuncInfo):
                               necessity="a field given under two equal aliases leaves the spare alias as an 'extra' key: "
                                         "kept / rejected by this strategy, silently consumed by the other")
     # (ii) bookkeeping precedes parsing
-    book = {A.ref: None, B.ref: None, pp.ref: "parsed_keys"}
-    for f in (A, B, pp):
+    for f in (pp,):
         fa = analysis(f)
         pv = [(n, c) for n, c in fa.all_calls() if call_attr(c) == "parse_value"]
         # candidates: local containers written in the same loop with the field name / aliases and read in a guard
@@ -436,7 +407,7 @@ def r06d(run, A: FuncInfo, B: FuncInfo):
                       necessity="with collected errors a provided-but-invalid item is later treated as not provided: it is "
                                 "reported a second time as absent (or its other alias is parsed instead)", node=c)
     # (iii) absence decided on inputs
-    for f in (A, B, pp):
+    for f in (pp,):
         fa = analysis(f)
         for n, c in fa.all_calls():
             if not (is_handle_error_call(c) and c.args and exc_class_of_ctor(c.args[0]) == "AbsenceError"):
@@ -470,46 +441,7 @@ def r06d(run, A: FuncInfo, B: FuncInfo):
 
 
 def r06f(run, A: FuncInfo, B: FuncInfo):
-    """a key that matched a declared field is consumed however the field treats it: in the strategy that runs an
-    extra-key pass over the input afterwards, every path from `the field got a value` to the next field marks the
-    field's aliases as used"""
-    for f in (A, B):
-        fa = analysis(f)
-        filt = set()
-        for n, c in fa.all_calls():
-            if call_attr(c) != "parse_addition":
-                continue
-            for a, p in fa.facts.atoms_at(n):
-                if isinstance(a, ast.Compare) and isinstance(a.ops[0], ast.In) and not p and isinstance(a.comparators[0], ast.Name):
-                    filt.add(a.comparators[0].id)
-        if not filt:
-            run.ob("R06f", f, "no extra-key pass filtered by a consumed-key set (keys are routed per key)", True, nontrivial=False)
-            continue
-        for setname in sorted(filt):
-            marks = [n for n in fa.cfg.nodes if n.kind == "stmt" and any(
-                isinstance(c.func, ast.Attribute) and unparse(c.func.value) == setname and c.func.attr in ("update", "add")
-                for c in fa.calls_at(n))]
-            # the branch "this field got a value": unprovided(<v>) is False inside the per-field loop
-            got = [b for b in fa.cfg.nodes if b.kind == "branch" and not b.is_for and b.polarity is False
-                   and isinstance(b.test, ast.Call) and call_attr(b.test) == "unprovided"
-                   and [m for m in sorted(fa.cfg.dominators()[b], key=lambda x: x.id)
-                        if m.kind == "branch" and m.is_for and m.polarity][-1:] and "self.fields" in unparse(
-                       [m for m in sorted(fa.cfg.dominators()[b], key=lambda x: x.id)
-                        if m.kind == "branch" and m.is_for and m.polarity][-1].stmt.iter)]
-            got = [b for b in got if b.test.args and value_state(fa, b.pred[0][0], b.test.args[0]) == {"RAW"}]
-            run.floor("R06f", f"`field got a value` branches in {f.name}", len(got), 1)
-            for b in got:
-                heads = [m.pred[0][0] for m in fa.cfg.dominators()[b] if m.kind == "branch" and m.is_for and m.polarity
-                         and "self.fields" in unparse(m.stmt.iter)]
-                reach = fa.cfg.reach_from_succ(b, kinds=(N,), avoid=marks)
-                leak = [h for h in heads if h in reach]
-                run.check("R06f", f, f"every field that got a value marks its aliases in `{setname}` before the next field",
-                          not leak and bool(marks), construct=f"consumed keys not marked on every path ({setname})",
-                          message=f"{f.qualname}: a path from `not unprovided(value)` to the next field avoids "
-                                  f"`{setname}.update(...)` (e.g. through the no-input branch)",
-                          necessity="the key given for a no-input (or otherwise skipped) field is later treated as an "
-                                    "unknown key: kept as addition (overriding the default) or rejected with ExceedError, "
-                                    "while the other strategy consumes it", node=b.stmt)
+    emit_table(run, "R06f", A, B)
 
 
 def r06g(run, A: FuncInfo, B: FuncInfo):
@@ -586,40 +518,7 @@ def r06h(run):
 
 
 def r06i(run, A: FuncInfo, B: FuncInfo):
-    """whether unknown keys are examined depends on the addition policy only, never on counts"""
-    total = 0
-    for f in (A, B):
-        fa = analysis(f)
-        for n, c in fa.all_calls():
-            if call_attr(c) != "parse_addition":
-                continue
-            total += 1
-            sized = [unparse(a) for a, p in fa.facts.atoms_at(n) if "len(" in unparse(a)]
-            run.check("R06i", f, "the extra-key pass is not gated by a size comparison", not sized,
-                      construct="extra-key pass gated by counts",
-                      message=f"{f.qualname}: `{unparse(c)[:50]}` only runs when {sized}",
-                      necessity="the bookkeeping sets hold every alias of a consumed field, not the consumed keys: "
-                                "their size says nothing about how many input keys are unknown, so unknown keys are "
-                                "silently dropped (addition=False / no_data_loss no longer rejects them)", node=c)
-        # marks of consumed keys are made only for fields that got a value
-        filt = set()
-        for n, c in fa.all_calls():
-            if call_attr(c) == "parse_addition":
-                for a, p in fa.facts.atoms_at(n):
-                    if isinstance(a, ast.Compare) and isinstance(a.ops[0], ast.In) and not p and isinstance(a.comparators[0], ast.Name):
-                        filt.add(a.comparators[0].id)
-        for setname in filt:
-            for n, c in fa.all_calls():
-                if isinstance(c.func, ast.Attribute) and unparse(c.func.value) == setname and c.func.attr in ("update", "add"):
-                    got = any(isinstance(a, ast.Call) and call_attr(a) == "unprovided" and not p and a.args
-                              and value_state(fa, n, a.args[0]) == {"RAW"} for a, p in fa.facts.atoms_at(n))
-                    run.check("R06i", f, f"`{unparse(c)[:40]}` marks keys as consumed only for a field that got a value", got,
-                              construct=f"keys marked consumed without a value ({setname})",
-                              message=f"{f.qualname}: `{unparse(c)}` marks a field's names as consumed on a path where the "
-                                      f"field did not take a value from the input",
-                              necessity="a keyword named like a positional-only parameter is swallowed instead of "
-                                        "reaching **kwargs: f(1, a=4) for def f(a, /, **kw) must bind kw={'a': 4}", node=c)
-    run.floor("R06i", "extra-key passes", total, 2)
+    emit_table(run, "R06i", A, B)
 
 
 def r06j(run, A: FuncInfo, B: FuncInfo):
@@ -628,31 +527,10 @@ def r06j(run, A: FuncInfo, B: FuncInfo):
         strategy takes the first spelling in the field's alias order and stops);
     (ii) the case-folding pre-pass of the per-field strategy does not silently overwrite a key that folds onto an
         existing one (the per-key strategy sees both and reports the conflict)"""
-    # (i) find the per-key strategy: its outer loop ranges over the input's items
+    # (i) decided on the decision table of the two strategies
+    emit_table(run, "R06j", A, B)
     for f in (A, B):
         fa = analysis(f)
-        per_key = [n for n in fa.cfg.nodes if n.kind == "iter" and unparse(n.ast) == "data.items()"
-                   and not any(m.kind == "branch" and m.is_for for m in fa.cfg.dominators()[n] if m.pred and m.pred[0][0] is not n)]
-        pv = [(n, c) for n, c in fa.all_calls() if call_attr(c) == "parse_value"]
-        if per_key and pv and any(fa.cfg.dominates(per_key[0], n) for n, c in pv):
-            # record of what a field already took: subscript-stored container keyed like the result
-            marks = {}
-            for n in fa.cfg.nodes:
-                if n.kind == "stmt" and isinstance(n.ast, ast.Assign) and isinstance(n.ast.targets[0], ast.Subscript) \
-                        and isinstance(n.ast.targets[0].value, ast.Name) and value_state(fa, n, n.ast.value) == {"RAW"}:
-                    marks[n.ast.targets[0].value.id] = unparse(n.ast.targets[0].slice)
-            for n, c in pv:
-                ok = any(isinstance(a, ast.Compare) and isinstance(a.ops[0], ast.In) and not p
-                         and isinstance(a.comparators[0], ast.Name) and a.comparators[0].id in marks
-                         and unparse(a.left) == marks[a.comparators[0].id] for a, p in fa.facts.atoms_at(n))
-                run.check("R06j", f, "a field that already took a value from an earlier key is not parsed again", ok,
-                          construct="per-key strategy overwrites an already provided field",
-                          message=f"{f.qualname}: `{unparse(c)[:50]}` can run for a field that already took a value from an "
-                                  f"earlier key (when alias conflicts are ignored): the last spelling in input order wins, "
-                                  f"while the per-field strategy takes the first spelling in the field's alias order",
-                          necessity="a: int = Field(alias_from=['a1', 'a2']) given {'a1': 1, 'a2': 2} under "
-                                    "Options(ignore_alias_conflicts=True): {'a': 2} data-first, {'a': 1} field-first",
-                          node=c)
         # (ii) case-folding pre-pass
         for n in fa.cfg.nodes:
             if n.kind == "stmt" and isinstance(n.ast, ast.Assign) and isinstance(n.ast.targets[0], ast.Subscript) \
@@ -675,74 +553,8 @@ def r06j(run, A: FuncInfo, B: FuncInfo):
 NORMALISERS = ("lower", "casefold", "upper")
 
 
-def _excluded_fate(f: FuncInfo) -> List[Tuple[str, object, str]]:
-    """what happens to an input key that names a field the caller excluded (a parameter already supplied by position).
-    Returns (fate, statement, where) per exclusion test: 'extra' when the key reaches the extra-key handling
-    (parse_addition), 'dropped' when it is consumed without it."""
-    fa = analysis(f)
-    if len(f.params) < 5:
-        raise AnalysisError(f"R06k: {f.qualname} has no excluded-keys parameter")
-    excl = f.params[4]
-    out = []
-    # the consumed-key filter of a separate extra-key pass (if the strategy has one)
-    filt = set()
-    for n, c in fa.all_calls():
-        if call_attr(c) == "parse_addition":
-            for a, p in fa.facts.atoms_at(n):
-                if isinstance(a, ast.Compare) and isinstance(a.ops[0], ast.In) and not p and isinstance(a.comparators[0], ast.Name):
-                    filt.add(a.comparators[0].id)
-    marks = [n for n in fa.cfg.nodes if n.kind == "stmt" and any(
-        isinstance(c.func, ast.Attribute) and unparse(c.func.value) in filt and c.func.attr in ("update", "add")
-        for c in fa.calls_at(n))]
-    adds = [n for n, c in fa.all_calls() if call_attr(c) == "parse_addition"]
-    for b in fa.cfg.nodes:
-        if b.kind != "branch" or b.is_for or b.test is None:
-            continue
-        hit = False
-        from ..cfg import decompose
-        for a, p in decompose(b.test, b.polarity):
-            if p and isinstance(a, ast.Compare) and len(a.ops) == 1 and isinstance(a.ops[0], ast.In) \
-                    and excl in names_in(a.comparators[0]):
-                hit = True
-        if not hit:
-            continue
-        loops = [m for m in sorted(fa.cfg.dominators()[b], key=lambda x: x.id) if m.kind == "branch" and m.is_for and m.polarity]
-        if not loops:
-            continue
-        loop = loops[-1]
-        head = loop.pred[0][0]
-        it = unparse(loop.stmt.iter)
-        region = fa.cfg.reach_from_succ(b, kinds=(N,), avoid=[head])
-        if "self.fields" in it or ".fields" in it:
-            # per-field pass: the key stays unconsumed (and is seen by the extra-key pass) unless it is marked
-            if not filt:
-                continue            # second pass of the per-key strategy: decides defaults, not the fate of a key
-            fate = "dropped" if any(m in region for m in marks) else "extra"
-            out.append((fate, b.stmt, f"per-field pass of {f.name}"))
-        else:
-            fate = "extra" if any(m in region for m in adds) else "dropped"
-            out.append((fate, b.stmt, f"per-key pass of {f.name}"))
-    return out
-
-
 def r06k(run, A: FuncInfo, B: FuncInfo):
-    """a keyword that names a parameter already supplied by position has the same fate in both strategies"""
-    fa_, fb_ = _excluded_fate(A), _excluded_fate(B)
-    run.floor("R06k", "exclusion tests deciding the fate of an input key", len(fa_) + len(fb_), 2)
-    fates_a = sorted({x[0] for x in fa_})
-    fates_b = sorted({x[0] for x in fb_})
-    same = fates_a == fates_b and len(fates_a) == 1
-    where = (fa_ + fb_)
-    drop = [x for x in where if x[0] == "dropped"] or where
-    run.check("R06k", (A if any(x[0] == "dropped" for x in fa_) else B),
-              "a key naming an excluded (positionally supplied) field has the same fate in both strategies", same,
-              construct="fate of a key naming an excluded field differs",
-              message=f"{A.name}: {fates_a} ({'; '.join(x[2] for x in fa_)})  vs  {B.name}: {fates_b} "
-                      f"({'; '.join(x[2] for x in fb_)}): one strategy hands the key to the extra-key handling, the other "
-                      f"silently consumes it",
-              necessity="def f(a: int, /, **rest) called f(1, a=5): rest == {'a': 5} with one strategy and {} with the "
-                        "other; with addition=False one raises ExceedError and the other succeeds",
-              node=drop[0][1] if drop else None)
+    emit_table(run, "R06k", A, B)
 
 
 def r06e(run):
